@@ -165,6 +165,56 @@ def run_meta(ctx, variants_fn, n_valid, n_mut, what, rule, trusted, k=4):
                 addp15(s, "mutant-pipelines", name, owner, desc)
         evaluated = engine.run_items_grouped(ctx, pitems, coq_file_fn=pipes.coq_cases_file_p) and evaluated
         items = items + pitems
+    if variants_fn is variants_c15:
+        # importing scenarios: reference spelling across files, and renumbering of the native checkpoints (dense from 0,
+        # dense from 1, reversed) -- ids that validation hands out itself must never meet ids of the document
+        import imports as I, copy as _copy
+        iitems = []
+
+        def renumber_native_checkpoints(case, mapping):
+            case = {"native": _copy.deepcopy(case["native"]), "builder": case["builder"],
+                    "imports": [dict(imp, conns=_copy.deepcopy(imp["conns"])) for imp in case["imports"]]}
+
+            def walk(x):
+                if isinstance(x, (tuple, list)):
+                    if len(x) == 2 and x[0] == "checkpoint" and isinstance(x[1], int) and x[1] in mapping:
+                        return type(x)(("checkpoint", mapping[x[1]]))
+                    return type(x)(walk(y) for y in x)
+                if isinstance(x, dict):
+                    return {kk: walk(vv) for kk, vv in x.items()}
+                return x
+            nat = case["native"]
+            for c in nat["checkpoints"]:
+                c["id"] = mapping.get(c["id"], c["id"])
+            for key in ("actions", "groups"):
+                nat[key] = walk(nat[key])
+            for c in nat["checkpoints"]:
+                c["deps"] = walk(c["deps"])
+            for imp in case["imports"]:
+                for cn in imp["conns"]:
+                    cn["add"] = tuple(walk(cn["add"]))
+            return case
+        n_imp = max(1, n_valid // 3) * scale + max(1, n_mut // 4) * scale
+        for i in range(n_imp):
+            if i < max(1, n_valid // 3) * scale:
+                case, name, desc = I.gen_valid_i(rng, threads=(i % 3 == 0)), None, None
+            else:
+                case, name, desc = I.mutate_i(rng)
+            ids = sorted(c["id"] for c in case["native"]["checkpoints"])
+            if len(set(ids)) != len(ids) or any(x >= 900 for x in ids):
+                continue
+            maps = [None, {x: j for j, x in enumerate(ids)}, {x: j + 1 for j, x in enumerate(ids)}, {x: ids[len(ids) - 1 - j] for j, x in enumerate(ids)}]
+            for v, (sp, mp) in enumerate(zip(("id", "alias", "mixed", "mixed"), maps)):
+                cv = case if mp is None else renumber_native_checkpoints(case, mp)
+                r = {"spelling": sp, "shuffle": False, "seed": rng.randrange(1 << 30), "native_checkpoint_ids": "as generated" if mp is None else sorted(mp.values())}
+                doc = I.render_i(cv, ctx.repo_copy, random.Random(r["seed"]), sp, False, False)
+                iitems.append(engine.Item(cv, doc, "valid-imports" if name is None else "mutant-imports", mutator=name, owner="C16" if name else None,
+                                          desc=desc, render=r, group="i%d" % i))
+        # the model's verdict does not depend on the numbering (Properties/C15.v): evaluate it once per scenario
+        evaluated = engine.run_items_grouped(ctx, iitems, coq_file_fn=I.coq_cases_file_i, chunk=8) and evaluated
+        for it in iitems:
+            it.scenario = {"native": it.scenario["native"], "imports": [{kk: vv for kk, vv in imp.items() if kk != "builder"} for imp in it.scenario["imports"]]}
+        items = items + iitems
     # metamorphic relation on the implementation alone
     by = collections.defaultdict(list)
     for it in items:
